@@ -304,22 +304,25 @@ func checkPosition(c posCase, r *h.Rec) error {
 	return nil
 }
 
-func TestC15_ChainPositions(t *testing.T) {
-	h.MarkExhaustive("chain-positions")
-	h.Sweep(t, h.P{Name: "chain-positions"}, func(emit func(posCase)) {
+// enumPositions emits every (condition, chain length, position, variant,
+// violated / control) combination of the sweep; thorough: with all three key
+// families, otherwise with a rotating one. (Also the index space of the native
+// fuzz target, which replaces seed and family.)
+func enumPositions(thorough bool, baseSeed uint64, emit func(posCase)) {
+	{
 		i := uint64(0)
 		fams := []int{0, 1, 2}
 		one := func(cond, k, pos, variant int, violate bool) {
 			i++
-			seed := gen.Mix(h.Seed, i, 0x9051)
-			if h.Thorough() {
+			seed := gen.Mix(baseSeed, i, 0x9051)
+			if thorough {
 				for _, f := range fams {
 					emit(posCase{Cond: cond, K: k, Pos: pos, Violate: violate, Variant: variant, Fam: f, Seed: seed})
 				}
 				return
 			}
 			// quick: the key family rotates; half of the cases can use crypto/x509 as second oracle
-			emit(posCase{Cond: cond, K: k, Pos: pos, Violate: violate, Variant: variant, Fam: []int{1, 0, 1, 2}[(i+h.Seed)&3], Seed: seed})
+			emit(posCase{Cond: cond, K: k, Pos: pos, Violate: violate, Variant: variant, Fam: []int{1, 0, 1, 2}[(i+baseSeed)&3], Seed: seed})
 		}
 		both := func(cond, k, pos, variant int) {
 			one(cond, k, pos, variant, true)
@@ -364,5 +367,12 @@ func TestC15_ChainPositions(t *testing.T) {
 		for pos := 0; pos <= 2; pos++ {
 			both(pcPathLen, 3, pos, 0)
 		}
+	}
+}
+
+func TestC15_ChainPositions(t *testing.T) {
+	h.MarkExhaustive("chain-positions")
+	h.Sweep(t, h.P{Name: "chain-positions"}, func(emit func(posCase)) {
+		enumPositions(h.Thorough(), h.Seed, emit)
 	}, checkPosition)
 }
